@@ -194,11 +194,95 @@ def conflicting_creates(ctx):
     return fails, {"concurrent_conflicting_create_rounds": rounds}
 
 
+def as_if_never_made(ctx, proof):
+    """'exactly what they were before the request', beyond what a listing shows: a state, a request built to be rejected, then follow-up
+    requests that address the same thing by name (read it, send the corrected request, change it, remove it) - run alongside the same
+    sequence without the rejected request; whenever the request was answered with an error the follow-ups must be answered identically
+    and the final configurations must be equal"""
+    rng = C.Rng(ctx.seed).fork("C06ghost")
+    n = (60 if ctx.tier == "quick" else 2000) * (1 if proof["build_ok"] else 3)
+    pairs, stats = [], {}
+    for i in range(n):
+        g = G.Gen(rng, G.port_base(i % 5))
+        ty = rng.choice([t for t in G.TYPES if t != "noop"])
+        f0 = A.TOXIC_FIELDS[ty][0]
+        ty2 = rng.choice([t for t in G.TYPES if t != "noop"])
+        setup = [A.req("POST", "/proxies", A.J({"name": "a", "listen": g.L[0], "upstream": "u1:1"})),
+                 A.req("POST", "/proxies/a/toxics", A.J({"type": ty2, "name": "t1", "stream": "downstream",
+                                                        "attributes": {f: 20 for f in A.TOXIC_FIELDS[ty2]}}))]
+        good_attrs = {f: rng.choice([3, 300]) for f in A.TOXIC_FIELDS[ty]}
+        kind = rng.choice(["toxic_create_illtyped_attr", "toxic_create_illtyped_attr", "toxic_create_bad_stream", "toxic_create_bad_toxicity",
+                           "toxic_update_illtyped_attr", "proxy_create_illtyped", "proxy_create_no_upstream", "proxy_update_illtyped"])
+        stats[kind] = stats.get(kind, 0) + 1
+        stream = rng.choice(["upstream", "downstream"])
+        if kind.startswith("toxic_create"):
+            body = {"type": ty, "name": "lag", "stream": stream, "attributes": dict(good_attrs)}
+            if kind == "toxic_create_illtyped_attr":
+                body["attributes"][f0] = rng.choice(["300", [1], True, {"x": 1}])
+            elif kind == "toxic_create_bad_stream":
+                body["stream"] = "sideways"
+            else:
+                body["toxicity"] = "much"
+            r = A.req("POST", "/proxies/a/toxics", A.J(body))
+            follow = [A.req("GET", "/proxies/a/toxics/lag"),
+                      A.req("POST", "/proxies/a/toxics", A.J({"type": ty, "name": "lag", "stream": stream, "attributes": good_attrs})),
+                      A.req("GET", "/proxies/a/toxics"),
+                      A.req(rng.choice(["POST", "PATCH"]), "/proxies/a/toxics/lag", A.J({"attributes": {f0: 77}})),
+                      A.req("DELETE", "/proxies/a/toxics/lag"), A.req("DELETE", "/proxies/a/toxics/lag")]
+        elif kind == "toxic_update_illtyped_attr":
+            f2 = A.TOXIC_FIELDS[ty2][0]
+            r = A.req(rng.choice(["POST", "PATCH"]), "/proxies/a/toxics/t1", A.J({"attributes": {f2: rng.choice(["x", [2], False])}, "toxicity": 0}))
+            follow = [A.req("GET", "/proxies/a/toxics/t1"), A.req("POST", "/proxies/a/toxics/t1", A.J({"attributes": {f2: 41}})),
+                      A.req("GET", "/proxies/a/toxics/t1"), A.req("DELETE", "/proxies/a/toxics/t1"), A.req("GET", "/proxies/a/toxics")]
+        elif kind.startswith("proxy_create"):
+            body = {"name": "n", "listen": g.L[1], "upstream": "u2:2"}
+            if kind == "proxy_create_illtyped":
+                body[rng.choice(["enabled", "upstream", "listen"])] = rng.choice([5, [1], {"a": 1}])
+            else:
+                del body["upstream"]
+            r = A.req("POST", "/proxies", A.J(body))
+            follow = [A.req("GET", "/proxies/n"), A.req("POST", "/proxies", A.J({"name": "n", "listen": g.L[1], "upstream": "u2:2"})),
+                      A.req("GET", "/proxies/n"), A.req("DELETE", "/proxies/n"), A.req("DELETE", "/proxies/n")]
+        else:
+            r = A.req(rng.choice(["POST", "PATCH"]), "/proxies/a", A.J({"upstream": "u9:9", "enabled": rng.choice(["no", 3, [True]])}))
+            follow = [A.req("GET", "/proxies/a"), A.req("POST", "/proxies/a", A.J({"upstream": "u3:3"})), A.req("GET", "/proxies/a"),
+                      A.req("GET", "/proxies/a/toxics")]
+        pairs.append(({"reqs": setup + follow, "env": g.env, "group": i % 5}, {"reqs": setup + [r] + follow, "env": g.env, "group": i % 5}, len(setup), kind))
+    flat = [c for p in pairs for c in p[:2]]
+    res = A.run_impl(ctx, flat, "c06_ghost")
+    fails, judged = [], 0
+    for k, (without, withr, ns, kind) in enumerate(pairs):
+        r0, r1 = res[2 * k], res[2 * k + 1]
+        if isinstance(r1, dict) and "crash" in r1:
+            fails.append(("crash", "the process crashed on a rejected request: " + r1["crash"][-200:], {"kind": "failing-input", "api": True, "case": withr}))
+            continue
+        if not isinstance(r0, list) or not isinstance(r1, list) or len(r1) != len(r0) + 1:
+            continue
+        st = r1[ns].get("status", 0)
+        if st < 400 or st >= 500:
+            continue                        # accepted after all, or the bind class the property exempts
+        judged += 1
+        for j in range(ns, len(r0)):
+            a, b = r0[j], r1[j + 1]
+            if (a.get("status"), A.canon_payload(a.get("body") or "")) != (b.get("status"), A.canon_payload(b.get("body") or "")) or \
+               A.canon_payload(a.get("proxies") or "") != A.canon_payload(b.get("proxies") or ""):
+                q = without["reqs"][j]
+                fails.append(("rejected-but-changed",
+                              "a request answered %d (%s) left a trace: afterwards %s %s is answered %s %s - without the rejected request it is answered %s %s"
+                              % (st, kind, q["method"], q["path"], b.get("status"), (b.get("body") or "")[:90].strip(), a.get("status"), (a.get("body") or "")[:90].strip()),
+                              {"kind": "failing-input", "api": True, "case": withr, "observed": r1, "without_the_request": r0}))
+                break
+    stats.update({"as_if_never_made_pairs": len(pairs), "as_if_never_made_judged": judged})
+    return fails, stats
+
+
 def side(ctx, proof):
     f1, c1 = traffic_cases(ctx, proof)
     f2, c2 = conflicting_creates(ctx)
+    f3, c3 = as_if_never_made(ctx, proof)
     c1.update(c2)
-    return f1 + f2, c1
+    c1.update(c3)
+    return f1 + f2 + f3, c1
 
 
 def run(ctx):
